@@ -37,4 +37,34 @@ func init() {
 		{Name: "benign-eof-test-in-condition", File: bed, Find: "\tif err != nil {\n\t\t// A final line without a terminator is returned with io.EOF;\n\t\t// parse it now, the next call reports the io.EOF.\n\t\tif err != io.EOF || len(line) == 0 {\n\t\t\treturn\n\t\t}\n\t}\n", Replace: "\tif err != nil && (err != io.EOF || len(line) == 0) {\n\t\treturn\n\t}\n"},
 		{Name: "benign-trimright-crlf", File: bed, Find: "\tr.line++\n\tline = bytes.TrimSpace(line)\n", Replace: "\tr.line++\n\tline = bytes.TrimRight(line, \"\\r\\n\")\n"},
 	}
+	letters := "alphabet/letters.go"
+	selftests["C01"] = []variant{
+		{Name: "fasta-prefix-count-dropped", File: fasta, Find: "\t\t\t_n, err = w.w.Write(prefix)\n\t\t\tif n += _n; err != nil {", Replace: "\t\t\t_n, err = w.w.Write(prefix)\n\t\t\tif err != nil {", Rule: "bytecount", Key: "fasta.(*Writer).Write/emit io.Writer.Write#2"},
+		{Name: "fastq-header-count-overwritten", File: fastq, Find: "\t_n, err = io.WriteString(w.w, s.Name())\n\tif n += _n; err != nil {", Replace: "\tn, err = io.WriteString(w.w, s.Name())\n\tif err != nil {", Rule: "bytecount", Key: "fastq.(*Writer).writeHeader/emit io.WriteString#1"},
+		{Name: "fastq-final-newline-uncounted", File: fastq, Find: "\t_n, err = w.w.Write([]byte{'\\n'})\n\tif n += _n; err != nil {\n\t\treturn\n\t}\n\n\treturn\n}", Replace: "\t_, err = w.w.Write([]byte{'\\n'})\n\tif err != nil {\n\t\treturn\n\t}\n\n\treturn\n}", Rule: "bytecount", Key: "fastq.(*Writer).Write/emit io.Writer.Write#5"},
+		{Name: "fastq-qid-marker-wrong", File: fastq, Find: "_n, err = w.writeHeader('+', s)", Replace: "_n, err = w.writeHeader('@', s)", Rule: "tables/markers", Key: "fastq/quality-id line marker"},
+		{Name: "fastq-reader-marker-wrong", File: fastq, Find: "func maybeID2(l []byte) bool { return len(l) > 0 && l[0] == '+' }", Replace: "func maybeID2(l []byte) bool { return len(l) > 0 && l[0] == '*' }", Rule: "tables/markers", Key: "fastq/quality-id line marker"},
+		{Name: "fasta-reader-prefix-differs", File: fasta, Find: "\t\tr:         bufio.NewReader(f),\n\t\tt:         template,\n\t\tIDPrefix:  []byte(DefaultIDPrefix),", Replace: "\t\tr:         bufio.NewReader(f),\n\t\tt:         template,\n\t\tIDPrefix:  []byte(\"> \"),", Rule: "tables/markers", Key: "fasta/IDPrefix"},
+		{Name: "sanger-encode-offset-32", File: letters, Find: "\tcase Sanger, Illumina1_8, Illumina1_9:\n\t\tq = byte(qp)\n\t\tif q <= 93 {\n\t\t\tq += 33\n\t\t}", Replace: "\tcase Sanger, Illumina1_8, Illumina1_9:\n\t\tq = byte(qp)\n\t\tif q <= 93 {\n\t\t\tq += 32\n\t\t}", Rule: "tables/quality", Key: "Sanger/Qphred-offset-agree"},
+		{Name: "illumina19-decode-case-dropped", File: letters, Find: "func (e Encoding) DecodeToQphred(q byte) Qphred {\n\tswitch e {\n\tcase Sanger, Illumina1_8, Illumina1_9:", Replace: "func (e Encoding) DecodeToQphred(q byte) Qphred {\n\tswitch e {\n\tcase Sanger, Illumina1_8:", Rule: "tables/quality", Key: "Illumina1_9/Qphred-decode-case"},
+		{Name: "fastq-buffer-retained", File: fastq, Find: "\t\tline = append(line, buff...)\n", Replace: "\t\tline = buff\n", Rule: "lineio/fragments", Key: "fastq.(*Reader).Read/ReadLine/buffer"},
+		// benign
+		{Name: "benign-fold-hoisted", File: fasta, Find: "\t_n, err = w.w.Write([]byte{'\\n'})\n\tif n += _n; err != nil {\n\t\treturn n, err\n\t}\n\n\treturn n, nil", Replace: "\tcount, err := w.w.Write([]byte{'\\n'})\n\tn += count\n\tif err != nil {\n\t\treturn n, err\n\t}\n\n\treturn n, nil"},
+		{Name: "benign-markers-as-named-constants", File: fastq, Find: "\tn, err = w.writeHeader('@', s)", Replace: "\tconst idMark = '@'\n\tn, err = w.writeHeader(idMark, s)"},
+	}
+	selftests["C02"] = []variant{
+		{Name: "gff-start-not-converted", File: gff, Find: "\t\tFeatStart:  feat.OneToZero(start),", Replace: "\t\tFeatStart:  start,", Rule: "convpair", Key: "gff.(*Reader).Read/parse-start FeatStart"},
+		{Name: "gff-end-converted", File: gff, Find: "\t\tFeatEnd:    mustAtoi(fields, endField, r.line),", Replace: "\t\tFeatEnd:    feat.OneToZero(mustAtoi(fields, endField, r.line)),", Rule: "convpair", Key: "gff.(*Reader).Read/parse-end FeatEnd"},
+		{Name: "gff-region-start-written-bare", File: gff, Find: "f.SeqName, feat.ZeroToOne(f.RegionStart), f.RegionEnd)", Replace: "f.SeqName, f.RegionStart, f.RegionEnd)", Rule: "convpair", Key: "gff.(*Writer).Write/format-start"},
+		{Name: "gff-end-written-converted", File: gff, Find: "\t\t\tfeat.ZeroToOne(f.FeatStart),\n\t\t\tf.FeatEnd,", Replace: "\t\t\tfeat.ZeroToOne(f.FeatStart),\n\t\t\tfeat.ZeroToOne(f.FeatEnd),", Rule: "convpair", Key: "gff.(*Writer).Write/format-end"},
+		{Name: "gff-metadata-start-written-bare", File: gff, Find: "d.SeqName, feat.ZeroToOne(d.FeatStart), d.FeatEnd)", Replace: "d.SeqName, d.FeatStart, d.FeatEnd)", Rule: "convpair", Key: "gff.(*Writer).WriteMetaData/format-start"},
+		{Name: "bed-deferred-newline-uncounted", File: bed, Find: "\t\t_, err = w.w.Write([]byte{'\\n'})\n\t\tif err != nil {\n\t\t\treturn\n\t\t}\n\t\tn++\n\t}()\n\n\t// Handle Bed types.", Replace: "\t\t_, err = w.w.Write([]byte{'\\n'})\n\t\tif err != nil {\n\t\t\treturn\n\t\t}\n\t}()\n\n\t// Handle Bed types.", Rule: "bytecount", Key: "bed.(*Writer).Write/emit io.Writer.Write#1"},
+		{Name: "gff-score-count-dropped", File: gff, Find: "\t\t\t\t_n, err = fmt.Fprintf(w.w, \"%v\", *f.FeatScore)\n", Replace: "\t\t\t\t_, err = fmt.Fprintf(w.w, \"%v\", *f.FeatScore)\n", Rule: "bytecount", Key: "gff.(*Writer).Write/emit fmt.Fprintf#2"},
+		{Name: "gff-tab-uncounted", File: gff, Find: "\t\t\t_, err = w.w.Write([]byte{'\\t'})\n\t\t\tif err != nil {\n\t\t\t\treturn\n\t\t\t}\n\t\t\tn++\n", Replace: "\t\t\t_, err = w.w.Write([]byte{'\\t'})\n\t\t\tif err != nil {\n\t\t\t\treturn\n\t\t\t}\n", Rule: "bytecount", Key: "gff.(*Writer).Write/emit io.Writer.Write#3"},
+		{Name: "gff-end-marker-count-dropped", File: gff, Find: "\t\tvar _n int\n\t\t_n, err = w.w.Write([...][]byte{", Replace: "\t\t_, err = w.w.Write([...][]byte{", More: []edit{{gff, "\t\treturn n + _n, err\n", "\t\treturn n, err\n"}}, Rule: "bytecount", Key: "gff.(*Writer).Write/emit io.Writer.Write#4"},
+		{Name: "bed-name-count-overwrites", File: bed, Find: "\t_n, err := fmt.Fprintf(w.w, \"\\t%s\", f.Name())\n\tn += _n\n", Replace: "\t_n, err := fmt.Fprintf(w.w, \"\\t%s\", f.Name())\n\tn = _n\n", Rule: "bytecount", Key: "bed.(*Writer).Write/emit"},
+		// benign
+		{Name: "benign-start-via-local", File: gff, Find: "\t\tFeatStart:  feat.OneToZero(start),", Replace: "\t\tFeatStart:  feat.OneToZero(start + 0),"},
+		{Name: "benign-count-variable-renamed", File: gff, Find: "\t\tvar _n int\n\t\t_n, err = w.w.Write([...][]byte{", Replace: "\t\tvar m int\n\t\tm, err = w.w.Write([...][]byte{", More: []edit{{gff, "\t\treturn n + _n, err\n", "\t\treturn n + m, err\n"}}},
+	}
 }
